@@ -21,7 +21,8 @@ COLL = ["projects", "locations", "instances", "tables", "shelves", "books", "reg
 KEYS = ["routing_id", "table_location", "name", "project", "k", "table_name", "parent", "app_profile_id"]
 SEG_ALPHA = "abcdefghijklmnopqrstuvwxyzABCXYZ0123456789-_.~ &=%+?#:@!$,;*()'\"<>[]{}|^`\\éßñ日本 \U0001F600"
 TOP = ["name", "parent", "table_name", "app_profile_id", "resource", "type"]
-NESTED = ["book.name", "book.title", "book.format", "book.shelf.name", "book.shelf.id", "book.shelf.type"]
+NESTED = ["book.name", "book.title", "book.format", "book.shelf.name", "book.shelf.id", "book.shelf.type", "book.class",
+          "book.shelf.import"]
 KW_TOP = ["from", "class"]
 HDR = "x-goog-request-params"
 SAFE_HEADER = re.compile(r"^[A-Za-z0-9_.~/%+=&-]*$")
@@ -371,11 +372,12 @@ def rest_accepts(toks, v):
 
 
 def gen_spec(r, idx, kind=None):
-    kind = kind or r.pick(["explicit", "explicit", "explicit", "implicit", "implicit", "both", "none"])
+    kind = kind or r.pick(["explicit", "explicit", "explicit", "explicit", "implicit", "implicit", "implicit", "both", "none",
+                           "empty-rule"])
     spec = {"name": f"Method{idx}", "kind": kind, "params": None, "http": None}
     if kind in ("explicit", "both"):
         nparams = r.randint(1, 5)
-        fields = [r.pick(TOP + NESTED) for _ in range(r.randint(1, 3))]
+        fields = [r.pick(TOP + NESTED + KW_TOP) for _ in range(r.randint(1, 3))]
         keys = [r.pick(KEYS) for _ in range(r.randint(1, 2))]
         params = []
         for _ in range(nparams):
@@ -385,12 +387,19 @@ def gen_spec(r, idx, kind=None):
             else:
                 key = r.pick(keys + [x for x in fields if "." not in x]) if r.maybe(0.85) else r.pick(KEYS)
                 params.append({"field": f, "segs": gen_template(r, key)})
+        if r.maybe(0.04):       # a template whose regex exceeds the 200-character repr limit of re.Pattern
+            sub = []
+            for c in (COLL * 2)[:r.randint(11, 14)]:
+                sub += [["lit", c], ["star"]]
+            params.append({"field": r.pick(fields), "segs": [["named", r.pick(keys), sub], ["dstar"]]})
         spec["params"] = params
     if kind == "empty-rule":
         spec["params"] = []
     if kind in ("implicit", "both"):
         spec["http"] = gen_http(r, TOP + NESTED + KW_TOP)
-    elif kind in ("explicit", "empty-rule"):
+    elif kind == "empty-rule":      # annotation without parameters: AIP-4222 = send nothing, even with http variables
+        spec["http"] = gen_http(r, TOP + NESTED + KW_TOP) if r.maybe(0.7) else None
+    elif kind == "explicit":
         spec["http"] = {"verb": "post", "parts": [["lit", "v1"], ["lit", f"m{idx}"]], "suffix": ":call"} if r.maybe(0.8) else None
     elif kind == "none":
         spec["http"] = {"verb": r.pick(["get", "post"]), "parts": [["lit", "v1"], ["lit", f"m{idx}"]], "suffix": ""} if r.maybe(0.7) else None
@@ -475,25 +484,8 @@ def expected_pairs(spec, req):
 
 
 def classify(spec):
-    """signature key of an input the emitted client cannot even be imported for (None = no such shape)"""
-    if spec["params"] is None and spec["http"]:
-        for v in http_vars(spec["http"]):
-            comps = v.split(".")
-            if len(comps) > 1 and any(c in KEYWORDS for c in comps):
-                return "implicit-dotted-path-keyword-segment"
-    if spec["params"] is not None and not spec["params"]:
-        return "empty-routing-rule"
-    for p in spec["params"] or []:
-        if any(c in KEYWORDS for c in p["field"].split(".")):
-            return "explicit-field-keyword-segment"
-    for p in spec["params"] or []:
-        if p["segs"] is not None:
-            try:
-                pat = real_param(p["field"], render_template(p["segs"])).to_regex()
-                if not repr(pat).endswith("')") and not repr(pat).endswith('")'):
-                    return "explicit-regex-repr-truncated"
-            except Exception:  # noqa
-                pass
+    """signature key of a known-finding shape (None: none listed; the four shapes of corpus/C06 were repaired in /repo
+    and are ordinary inputs now)"""
     return None
 
 
@@ -510,8 +502,6 @@ def attr_variants(path, value):
             opts.append(c + "_")
         outs = [o + [x] for o in outs for x in opts]
     d = {".".join(o): value for o in outs}
-    if path in RESERVED_NAMES:      # what FieldHeader.disambiguated would read for a dotted reserved name: n/a
-        d[path + "_"] = value
     return d
 
 
@@ -771,7 +761,8 @@ def check_field_headers(ctx, r, nmethods):
             want_ok = not any(c in KEYWORDS for c in attr.split("."))
             if ok != want_ok:
                 ctx.disagree("T2:c06.attr_valid", f"{attr!r}: model valid={ok}, python says {want_ok}", {"http": h})
-            if "." not in raw and raw in RESERVED_NAMES and attr != raw + "_":
+            want_attr = ".".join(c + "_" if c in RESERVED_NAMES else c for c in raw.split("."))
+            if attr != want_attr:
                 ctx.fail("reserved-not-suffixed", f"{raw!r} read from {attr!r}", {"http": h})
 
 # ------------------------------------------------------------------ corpus
@@ -903,8 +894,8 @@ def replay(ctx, payload):
 
 
 CLAIM = dict(
-    text="Lean 4 proof on an executable model of create_metadata that explicit routing is the AIP-4222 fold (for every key the value sent is the capture of the LAST parameter with that key that matches with a non-empty capture; no header iff no parameter contributes; a parameter without template passes the field through), that the regex RoutingParameter builds captures exactly what a regex-free segment scanner of the template language captures (all templates with one named segment and `**` last, all newline-free values), that implicit routing lists exactly the variables of the primary http path, reads reserved words from the suffixed attribute and sends the raw name, and that the encoded header only contains URL-safe characters. Tie: T1 bridge of the field_headers regex and the reserved-name tables; T2 AST equality between the model regex and CPython's parse of the real to_regex().pattern, captures via Python re vs the Lean engine, field_headers/disambiguated, urlencode; T3 the header seen by loopback gRPC (sync, asyncio) and HTTP servers for calls through the emitted clients vs the model; a model-independent AIP-4222 reference resolver as oracle.",
+    text="Lean 4 proof on an executable model of create_metadata that explicit routing is the AIP-4222 fold (for every key the value sent is the capture of the LAST parameter with that key that matches with a non-empty capture; no header iff no parameter contributes; a parameter without template passes the field through), that the regex RoutingParameter builds captures exactly what a regex-free segment scanner of the template language captures (all templates with one named segment and `**` last, all newline-free values), that implicit routing lists exactly the variables of the primary http path, reads every reserved-word segment of a (dotted) field path from the suffixed attribute — so the attribute path is always a valid Python expression — and sends the raw name, and that the encoded header only contains URL-safe characters. Tie: T1 bridge of the field_headers regex and the reserved-name tables; T2 AST equality between the model regex and CPython's parse of the real to_regex().pattern, captures via Python re vs the Lean engine, field_headers/disambiguated, urlencode; T3 the header seen by loopback gRPC (sync, asyncio) and HTTP servers for calls through the emitted clients vs the model; a model-independent AIP-4222 reference resolver as oracle.",
     technique="Lean 4 theorems (induction over the parameter list; regex-engine proofs by induction over template segments) + translator bridge + differential T2/T3 against emitted clients on loopback servers",
     design="7.6",
-    note="Values with newlines, templates with `**` before the last segment, literals with regex metacharacters and client-streaming methods are outside the generated space (stated as assumptions). Known findings: dotted path variable with a keyword segment, routing field that is a keyword, routing template whose regex exceeds the 200-character repr limit of re.Pattern — each makes the emitted client unparsable.",
+    note="Values with newlines, templates with `**` before the last segment, literals with regex metacharacters and client-streaming methods are outside the generated space (stated as assumptions). The four defects found by this check (dotted path variable with a keyword segment, keyword routing field, routing regex beyond the 200-character repr limit of re.Pattern, empty routing annotation) were repaired in /repo (findings/C06.json, fixed) and are regression inputs of the corpus and of the generator.",
 )
